@@ -78,24 +78,32 @@ pub fn verif_dir() -> PathBuf {
 }
 
 fn load_findings(dir: &PathBuf) -> Vec<Finding> {
-    let p = dir.join("known_findings.txt");
+    // known_findings.txt plus every known_findings.d/*.txt (same format)
+    let mut files = vec![dir.join("known_findings.txt")];
+    if let Ok(rd) = std::fs::read_dir(dir.join("known_findings.d")) {
+        let mut extra: Vec<PathBuf> = rd.flatten().map(|e| e.path()).filter(|p| p.extension().map(|x| x == "txt").unwrap_or(false)).collect();
+        extra.sort();
+        files.extend(extra);
+    }
     let mut out = vec![];
-    if let Ok(s) = std::fs::read_to_string(&p) {
-        for line in s.lines() {
-            let line = line.trim();
-            if line.is_empty() || line.starts_with('#') || line.starts_with("fixed:") {
-                continue;
-            }
-            match serde_json::from_str::<Value>(line) {
-                Ok(v) => out.push(Finding {
-                    property: v["property"].as_str().unwrap_or("").to_string(),
-                    id: v["id"].as_str().unwrap_or("").to_string(),
-                    status: v["status"].as_str().unwrap_or("open").to_string(),
-                    what: v["what"].as_str().unwrap_or("").to_string(),
-                }),
-                Err(e) => {
-                    println!("MACHINERY: bad line in known_findings.txt: {e}: {line}");
-                    std::process::exit(2);
+    for p in files {
+        if let Ok(s) = std::fs::read_to_string(&p) {
+            for line in s.lines() {
+                let line = line.trim();
+                if line.is_empty() || line.starts_with('#') || line.starts_with("fixed:") {
+                    continue;
+                }
+                match serde_json::from_str::<Value>(line) {
+                    Ok(v) => out.push(Finding {
+                        property: v["property"].as_str().unwrap_or("").to_string(),
+                        id: v["id"].as_str().unwrap_or("").to_string(),
+                        status: v["status"].as_str().unwrap_or("open").to_string(),
+                        what: v["what"].as_str().unwrap_or("").to_string(),
+                    }),
+                    Err(e) => {
+                        println!("MACHINERY: bad line in {}: {e}: {line}", p.display());
+                        std::process::exit(2);
+                    }
                 }
             }
         }
